@@ -4,6 +4,7 @@ package props
 // fails again if the defect returns. Names are TestRegression_<property>_<finding>.
 
 import (
+	"errors"
 	"math"
 	"testing"
 
@@ -238,5 +239,40 @@ func TestRegression_C13_F12_ExactVariantValidatesZeroWeightAdds(t *testing.T) {
 	}
 	if err := s.AddWithCount(5, 0); err != nil || !s.IsEmpty() {
 		t.Fatalf("F12: AddWithCount(5, 0): err=%v empty=%v", err, s.IsEmpty())
+	}
+}
+
+func TestRegression_C13_F13_ConstructorsNeverReturnNilNil(t *testing.T) {
+	for _, a := range []float64{5e-324, 1e-300, 1e-17, 5e-17} {
+		if m, err := mapping.NewLogarithmicMapping(a); (m == nil) == (err == nil) {
+			t.Fatalf("F13: NewLogarithmicMapping(%v) = (%v, %v)", a, m, err)
+		}
+		if m, err := mapping.NewLinearlyInterpolatedMapping(a); (m == nil) == (err == nil) {
+			t.Fatalf("F13: NewLinearlyInterpolatedMapping(%v) = (%v, %v)", a, m, err)
+		}
+		if m, err := mapping.NewCubicallyInterpolatedMapping(a); (m == nil) == (err == nil) {
+			t.Fatalf("F13: NewCubicallyInterpolatedMapping(%v) = (%v, %v)", a, m, err)
+		}
+		if s, err := ddsketch.NewDefaultDDSketch(a); err == nil {
+			_ = s.Add(1) // must not panic
+		}
+	}
+}
+
+func TestRegression_C13_F14_RangeCheckedFirst(t *testing.T) {
+	s, err := ddsketch.NewDefaultDDSketch(1e-10)
+	if err != nil {
+		t.Fatal(err)
+	}
+	if err := s.Add(1); !errors.Is(err, ddsketch.ErrUntrackableTooHigh) {
+		t.Fatalf("F14: Add(1) with accuracy 1e-10 (largest indexable value %v) returned %v", s.MaxIndexableValue(), err)
+	}
+	m, _ := mapping.NewLogarithmicMappingWithGamma(1.02, -1e11)
+	z := ddsketch.NewDDSketch(m, store.NewSparseStore(), store.NewSparseStore())
+	if err := z.Add(math.Inf(1)); !errors.Is(err, ddsketch.ErrUntrackableTooHigh) {
+		t.Fatalf("F14: Add(+Inf) returned %v", err)
+	}
+	if err := z.Add(math.Inf(-1)); !errors.Is(err, ddsketch.ErrUntrackableTooLow) {
+		t.Fatalf("F14: Add(-Inf) returned %v", err)
 	}
 }
